@@ -198,12 +198,17 @@ def main(argv=None):
     replay_root = os.environ.get("GOVC_REPLAY_DIR", os.path.join(ROOT, "replay"))
     os.makedirs(os.path.join(replay_root, pid), exist_ok=True)
     lines = []
+    todo = []
     for kind, name, text, ob in problems:
         kf = match_known(known, pid, name)
         if kf:
             known_hits.append((kf, name))
             continue
         violations += 1
+        todo.append((kind, name, text, ob))
+
+    def report_one(item):
+        kind, name, text, ob = item
         path = os.path.join(replay_root, pid, sanitize(name) + ".json")
         rep = {"property": pid, "obligation": name, "kind": kind, "status": text, "tier": tier}
         tail = ""
@@ -226,7 +231,12 @@ def main(argv=None):
         else:
             tail = " no-failing-input-found"
         json.dump(rep, open(path, "w"), indent=1)
-        lines.append("VIOLATION property=%s replay=%s obligation=%s status=%s%s" % (pid, path, name, text.split("\n")[0][:80].replace(" ", "_"), tail))
+        return "VIOLATION property=%s replay=%s obligation=%s status=%s%s" % (pid, path, name, text.split("\n")[0][:80].replace(" ", "_"), tail)
+
+    if todo:
+        import concurrent.futures
+        with concurrent.futures.ThreadPoolExecutor(max_workers=6) as ex:
+            lines = list(ex.map(report_one, todo))
     seen = set()
     for kf, name in known_hits:
         key = kf["id"]
